@@ -683,8 +683,20 @@ class Engine:
         qs.sort(key=lambda q: -q.mem_gb)      # expected-expensive queries first (the seed permutes ties)
         if budget_s:
             self.deadline = self.t0 + budget_s
-        threads = []
         from concurrent.futures import ThreadPoolExecutor
+        def is_heavy(q):
+            return q.mem_gb >= 6 or q.timeout >= 1500
+        heavy = [q for q in qs if is_heavy(q)]
+        if self.tier == "thorough" and heavy and len(heavy) < len(qs) and self.sched.max_jobs >= 8:
+            # thorough plans mix a few dozen very long / very large queries (up to 50 min, 8-16 GB) with thousands of small ones:
+            # the long ones start first but only on half of the workers, so that the small ones are not parked behind them
+            light = [q for q in qs if not is_heavy(q)]
+            nh = max(2, self.sched.max_jobs // 2)
+            with ThreadPoolExecutor(max_workers=nh) as exh, ThreadPoolExecutor(max_workers=self.sched.max_jobs - nh) as exl:
+                futs = [exh.submit(self.run_one, q) for q in heavy] + [exl.submit(self.run_one, q) for q in light]
+                for f in futs:
+                    f.result()
+            return self.results
         with ThreadPoolExecutor(max_workers=self.sched.max_jobs) as ex:
             futs = [ex.submit(self.run_one, q) for q in qs]
             for f in futs:
